@@ -110,6 +110,15 @@ PROPS = {
     },
 }
 
+# further properties live in tools/props_d/<Cxx>.py, each exposing PROP = {streams, search?, rule, trusted_base, assumptions}
+import importlib.util, glob as _glob
+for _f in sorted(_glob.glob(os.path.join(os.path.dirname(os.path.abspath(__file__)), "props_d", "C*.py"))):
+    _name = os.path.basename(_f)[:-3]
+    _spec = importlib.util.spec_from_file_location("props_d_" + _name, _f)
+    _m = importlib.util.module_from_spec(_spec)
+    _spec.loader.exec_module(_m)
+    PROPS[_name] = _m.PROP
+
 
 def replay(prop, P, path, tier, seed):
     data = json.load(open(path))
